@@ -27,6 +27,7 @@ FIXMAP = [  # (regex on fingerprint, distinctive words of the fix commit subject
     (r"provider:token-exchange:grant-unregistered", "token exchange on the Provider router requires"),
     (r"legacy:device_authorization:grant-unregistered", "LegacyServer.DeviceAuthorization requires"),
     (r"leaks-into-query:response-type-spelled-as-registered", "default response mode is fragment"),
+    (r"hint-access_token:string-unseals-to-pair", "whatever the token_type_hint says"),
 ]
 log = subprocess.run(["git", "-C", "/repo", "log", "--format=%h %s"], stdout=subprocess.PIPE, text=True).stdout.splitlines()
 def commit_for(words):
